@@ -32,6 +32,16 @@ package jlib
 //@   assigns nothing
 //@   trusted
 
+// --- C10 / C18: $power and $sqrt never hand out NaN or an infinity ------------------------------------------------------
+//@ func Power
+//@   props C10 C18 C09
+//@   ensures [C10:finite-or-error] r1 == nil ==> (finite(r0) && same(r0, fpow(x, y)))
+//@   ensures r1 != nil ==> r0 == 0.0
+//@ func Sqrt
+//@   props C10 C18 C09
+//@   ensures [C18:negative-is-error] x < 0.0 ==> r1 != nil
+//@   ensures [C10:finite-or-error] (finite(x) && r1 == nil) ==> finite(r0)
+
 // --- C13: $sort ------------------------------------------------------------------------------------------
 // $sort(a) on an all-number / all-string array: the members are collected in order (every one of them a float64 /
 // a string, which is what the comparison closures assert), then ordered by sort.SliceStable (trusted: stable) with
